@@ -279,6 +279,17 @@ impl Ranges {
         };
 
         ranges.deserialize_inner(seq, parsed_value_seed)?;
+
+        // a sequence holding only the range type has no branch to render
+        let mut branch_count = 0usize;
+        let _ = ranges.try_for_each_value::<_, core::convert::Infallible>(|_| {
+            branch_count += 1;
+            Ok(())
+        });
+        if branch_count == 0 {
+            return Err(serde::de::Error::custom(Error::EmptyRange));
+        }
+
         Ok(ranges)
     }
 
